@@ -941,6 +941,44 @@ func c14NormalisationAgreement(w *World, r *Report) {
 	} else {
 		r.Hold("R3", "host-wildcard-translated-or-not-accepted", hf.Pos(), 1, "host-label wildcard: tree accepts=%v, registration suffix %q", hostWild, wl)
 	}
+	// a path parameter matched by an EMPTY segment: the tree steps into the parametric child without
+	// looking at the segment's text; the expression a parameter is rewritten to may demand a character
+	repl := ""
+	if c := w.constOf(pkgConfig, "RegexToReplacePathParameters"); c != nil {
+		repl = constant.StringVal(c)
+	}
+	needsChar := false
+	if re, err := regexp.Compile("^" + repl + "$"); err == nil && repl != "" {
+		needsChar = !re.MatchString("/") && !re.MatchString("")
+	}
+	treeLooksAtText := false
+	for _, name := range []string{"lookupNode", "lookupFlow"} {
+		lf := w.Fn(pkgURLTree, name)
+		if lf == nil {
+			continue
+		}
+		for _, b := range lf.Blocks {
+			for _, cd := range CondsOf(b) {
+				rel, isRel := NormCond(cd)
+				if !isRel {
+					continue
+				}
+				for _, side := range [][2]ssa.Value{{rel.L, rel.R}, {rel.R, rel.L}} {
+					if s, isS := constString(side[1]); isS && s == "" && strings.HasSuffix(Path(side[0]), ".Value") {
+						treeLooksAtText = true
+					}
+					if isIntConst(side[1], 0) && strings.Contains(Path(side[0]), "builtin.len(") && strings.Contains(Path(side[0]), ".Value") {
+						treeLooksAtText = true
+					}
+				}
+			}
+		}
+	}
+	if needsChar && !treeLooksAtText {
+		r.Fail("R3", "empty-parameter-segment/engine-accepts-what-the-expression-excludes", hf.Pos(), "the URL tree follows a `{param}` node for any segment, the empty one included (GET api.example.com/users//orders matches pattern api.example.com/users/{id}/orders), but a parameter is registered as %q, which needs at least one character: that request is acted on by the engine's tree and is not intercepted by the proxy", repl)
+	} else {
+		r.Hold("R3", "empty-parameter-segment/agree", hf.Pos(), 1, "empty parameter segments: expression needs a character=%v, tree tests the segment's text=%v", needsChar, treeLooksAtText)
+	}
 }
 
 // regexpAccepts: does the (suffix) pattern match exactly s?
